@@ -80,6 +80,11 @@ def run_property(modname: str, tier: str, seed: int, update_ledger: bool = False
     for s in specs:
         r = verify(engine, s)
         r.generated = len([o for o in r.obligations if not o.clause.startswith("cover")])  # type: ignore[attr-defined]
+        keep = getattr(s, "keep_clauses", None)
+        if keep:
+            # this instance of a shared contract serves one aspect only (e.g. the token-adjacency clauses of the scanner for C10)
+            kre = re.compile(keep)
+            r.obligations = [o for o in r.obligations if o.clause.startswith("cover") or kre.search(o.clause)]
         if drop_re is not None:
             # clauses that belong to other properties (the same contract instance serves several)
             r.obligations = [o for o in r.obligations if not drop_re.search(o.clause)]
